@@ -1446,6 +1446,10 @@ class Router(NetworkNode, discriminator="router"):
         :param frame: The frame to be routed or forwarded.
         :param from_network_interface: The network interface from which the frame originated.
         """
+        # Layer 2 broadcasts (e.g. an ARP request for another address on the segment) are never forwarded by a router
+        if frame.is_broadcast:
+            return
+
         # check if frame is addressed to this Router but has failed to be received by a service of application at the
         # receive_frame stage
         if frame.ip:
